@@ -43,6 +43,29 @@ def sort_guard(chk, F, RULE):
                 wantv = "Ok" if nm.endswith("Ok") else "Some"
                 have[nm] = any(v == wantv and re.match(rx, w) for v, w in conds)
             key = "sort|%s" % ("empty list" if empty else "guarded")
+            if not empty and not all(have.values()):
+                # the same guard written as `iter().all(|e| ..)`: the closure's true rows must establish the four facts for its element
+                allp = [str(c[1]) for c in st.cond if c[0] == "ne" and re.match(r"^Iterator::all\(.*, closure#\d+\)$", str(c[1]))]
+                for ap in allp:
+                    k_ = int(re.search(r"closure#(\d+)\)$", ap).group(1))
+                    cb = [c_ for c_ in F.closures_of(sb) if c_.path.endswith("{closure#%d}" % k_)]
+                    if not cb or cb[0].d.get("arg_count") != 2:
+                        continue
+                    itc = symex.Interp(F, SortPolicy())
+                    trues = []
+                    for stc, rc in itc.run(cb[0], [symex.U("cap"), symex.U("e")]):
+                        if symex.render(rc) == "1":
+                            trues.append([(c[2], str(c[3])) for c in stc.cond if c[0] == "variant"])
+                        elif symex.render(rc) != "0":
+                            trues.append(None)
+                    def establishes(cs):
+                        if cs is None:
+                            return False
+                        w_first = any(v == "Ok" and re.match(r"^ord\((e, cap\.\d+|cap\.\d+, e)\)$", w) for v, w in cs) and any(v == "Some" and re.match(r"^ord\((e, cap\.\d+|cap\.\d+, e)\)\.Ok\.0$", w) for v, w in cs)
+                        w_self = ("Ok", "ord(e, e)") in cs and ("Some", "ord(e, e).Ok.0") in cs
+                        return w_first and w_self
+                    if trues and all(establishes(cs) for cs in trues):
+                        have = {k2: True for k2 in have}
             if empty or all(have.values()):
                 chk.ok(RULE, key, sorted(k_ for k_, v_ in have.items() if v_))
             else:
